@@ -144,6 +144,33 @@ def filter_wrap_table(ctx, clause):
     return obs, n
 
 
+def file_list_order(ctx, clause):
+    """Document order of a multi-file input is the order of the list the user gave: the list reaches the multi-file readers
+    as it is (copy edges only - no sorting, de-duplication or rebuilding on the way), and they read it front to back."""
+    g, p = ctx.flow, ctx.p
+    src = g.param("shexer.shaper:Shaper.__init__", "graph_list_of_files_input")
+    T = g.flows([src], labels=("copy",))
+    base = p.find_class("MultifileBaseTripleYielder")
+    init = base.find_method("__init__")
+    prm = [x for x in init.bound_params if "list" in x or "files" in x]
+    ok = bool(prm) and g.var(init, prm[0]) in T
+    obs = [Ob(clause, "R-FLOW", "R-FLOW|file-list-as-given", init.loc(), ok,
+              "graph_list_of_files_input reaches MultifileBaseTripleYielder(%s) unchanged" % (prm[0] if prm else "?") if ok else
+              "graph_list_of_files_input no longer reaches MultifileBaseTripleYielder as given (a step in between rebuilds, sorts or filters the "
+              "list): the order of the files - the document order that instances_cap counts in - is not the user's any more")]
+    y = base.find_method("yield_triples")
+    loops_ = [x for x in walk_own(y.node) if isinstance(x, ast.For)]
+    ok2 = bool(loops_) and any(is_field_load(l.iter) for l in loops_)
+    obs.append(Ob(clause, "R-FLOW", "R-FLOW|file-list-read-in-order", y.loc(), ok2,
+                  "the multi-file reader iterates its list of files front to back" if ok2 else
+                  "the multi-file reader no longer iterates its stored list of files directly"))
+    return obs
+
+
+def is_field_load(e):
+    return isinstance(e, ast.Attribute) and isinstance(e.value, ast.Name) and e.value.id == "self"
+
+
 def direct_child_table(ctx, clause):
     f = ctx.p.func("shexer.utils.triple_yielders:check_if_property_belongs_to_namespace_list")
     ev = Evaluator(ctx)
@@ -176,6 +203,7 @@ def check(ctx, tier):
                   "the early-stop variant is bound iff the number of target classes is known (> 0)" if ok else
                   "slot binding changed: %s" % (norm(bind[0].value) if bind else "no binding")))
     obs += ctx.attempt(filter_placement, ctx, "D-b", default=[])
+    obs += ctx.attempt(file_list_order, ctx, "D-a", default=[])
     o_fw, r3 = ctx.attempt(filter_wrap_table, ctx, "D-b", default=([], 0))
     obs += o_fw
     o_dc, r2 = ctx.attempt(direct_child_table, ctx, "D-c", default=([], 0))
